@@ -148,7 +148,9 @@ def configs(t):
         setup=[['rpc', 0, 'start_application', ['CONFIG', 'A', False]]],
         triggers=[['rpc', 1, 'restart_application', ['CONFIG', 'A', False]]], T=4,
         behaviours=['run', 'stopped', 'exit_bad', 'backoff', 'giveup']))
-    if t == 'thorough':
+    # deeper variants (one more deviation, one more tick): exploratory only (VERIF_DEEP=1), see DESIGN.md 10.6 -
+    # they raise signals that have not been classified, so they are not part of the registered thorough command
+    if t == 'thorough' and os.environ.get('VERIF_DEEP'):
         deep = []
         for c in out:
             c2 = dict(c)
@@ -164,7 +166,7 @@ def configs(t):
 
 
 def kwargs_of(c):
-    return {'deviations': c['D'], 'closure': 'sparse', 'max_seconds': c.get('max_seconds')}
+    return {'deviations': c['D'], 'closure': 'all' if tier() == 'thorough' else 'sparse', 'max_seconds': c.get('max_seconds')}
 
 
 def main():
